@@ -588,6 +588,9 @@ def rule_V3(ctx, R):
 BOXED = "collection::BoxedLockCollection"
 
 
+_LEAKS = ("Box::<T, A>::leak", "Box::<T>::into_raw", "Box::<T, A>::into_raw")   # both give up ownership of the heap cell
+
+
 def rule_H1(ctx, R):
     res = RuleResult("H1", "heap-cell ownership of the boxed collection: Box::from_raw on its data only in Drop and in by-value consumers; "
                            "into_child = drop_in_place(locks), one from_raw, mem::forget(self); Drop = one from_raw, dropped; a rejected "
@@ -646,9 +649,7 @@ def rule_H1(ctx, R):
             if len(fr) != 1 or vid(fr[0]["argv"][0]) != "op:a1.0":
                 bad = "%d from_raw on %s" % (len(fr), [vid(e["argv"][0]) for e in fr])
             elif len(fg) != 1 or not (fg[0]["val"][0] == "op" and fg[0]["val"][1] == "a1"):
-                bad = "self is not mem::forget-ed exactly once after taking the box (double free when self drops)"
-            elif fg[0]["i"] < fr[0]["i"]:
-                bad = "self forgotten before the box is taken"
+                bad = "self is not forgotten (mem::forget / ManuallyDrop) exactly once on the path that takes the box (double free when self drops)"
             elif len(dip) != 1 or vid(dip[0]["argv"][0]) not in ("ref:a1.1", "op:a1.1"):
                 bad = "the lock list is not dropped in place exactly once (%s)" % [vid(e["argv"][0]) for e in dip]
             elif not (p.value and (fr[0]["result"] in repr(p.value))):
@@ -659,14 +660,14 @@ def rule_H1(ctx, R):
             res.ok(f["path"])
     # constructors: leak's result is the data field; rejected try_new drops the collection
     for f in analysed_fns(ctx):
-        if not any(t["k"] == "call" and t["callee"].get("def", "").endswith("Box::<T, A>::leak") for b in f["mir"]["blocks"] for t in [b["term"]]):
+        if not any(t["k"] == "call" and t["callee"].get("def", "").endswith(_LEAKS) for b in f["mir"]["blocks"] for t in [b["term"]]):
             continue
         paths, err, I = ctx.paths(f)
         bad = err
         for p in paths or []:
             if p.kind != "ret":
                 continue
-            lk = [e for e in _calls(p) if e["def"].endswith("::leak")]
+            lk = [e for e in _calls(p) if e["def"].endswith(_LEAKS)]
             v = p.value
             if not (v and v[0] == "agg" and v[2] == BOXED and len(lk) == 1 and vid(v[4][0]) == "op:" + lk[0]["result"]):
                 bad = "leaked box does not become the collection's data pointer"
@@ -684,7 +685,7 @@ def rule_H1(ctx, R):
             if p.kind != "ret" or not p.value:
                 continue
             fr = [e for e in _calls(p) if e["def"].endswith("from_raw")]
-            lk = [e for e in _calls(p) if e["def"].endswith("::leak")]
+            lk = [e for e in _calls(p) if e["def"].endswith(_LEAKS)]
             if p.value[3] == 0 and lk:
                 if len(fr) != 1:
                     bad = "rejecting path frees the heap cell %d times (collection forgotten or double-dropped)" % len(fr)
@@ -710,7 +711,8 @@ def rule_H2(ctx, R):
             "std::mem::replace", "std::mem::swap", "std::mem::take")
     for f, t in call_sites(ctx, lambda c: c["def"] == "std::mem::forget" or c["def"] in DENY or "ManuallyDrop" in c["def"]):
         top = F.top_fn(f)
-        if t["callee"]["def"] == "std::mem::forget":
+        if t["callee"]["def"] in ("std::mem::forget", "std::mem::ManuallyDrop::<T>::new") or \
+                t["callee"]["def"].startswith("<std::mem::ManuallyDrop<T> as std::ops::Deref"):
             by_val = top.get("inputs") and top["inputs"][0]["k"] == "adt" and top["inputs"][0]["path"] == BOXED
             if by_val:
                 res.ok("forget in " + top["path"])
